@@ -262,12 +262,13 @@ private theorem npStep_at (st : NPState) (ch : Char) (h : AtState st) :
   by_cases hd : ch = '.'
   · left
     simp [hd, npFinalize, h2, hb, hid]
-  · simp only [hd, if_false]
+  · simp only [hd, if_false, h2, Bool.false_eq_true]
     by_cases hq : ch = '"'
     · left; simp [hq, hb]
     · right
       simp only [hq, if_false]
-      refine ⟨_, rfl, ?_, h2, ?_⟩
+      refine ⟨_, rfl, ?_, ?_, ?_⟩
+      · simp
       · simp
       · cases hbuf : st.buf with
         | nil => exact absurd hbuf hb
